@@ -30,7 +30,7 @@ const (
 	ctrlAddr = "192.168.1.100:60000"
 )
 
-var classNames = []string{"silence", "valid", "len0", "len1", "len63", "len65", "len128", "len1024", "wrong-serial", "serial-0", "wrong-function", "function-ff", "protocol-00", "protocol-19", "malformed-field", "event-from-S", "lenN"}
+var classNames = []string{"silence", "valid", "len0", "len1", "len63", "len65", "len128", "len1024", "wrong-serial", "serial-0", "wrong-function", "function-ff", "protocol-00", "protocol-19", "malformed-field", "event-from-S", "no-value-and-malformed", "lenN"}
 
 // nRegular: the classes a regular scenario draws from; "lenN" (any length 0..1100 but 64, well-formed
 // 64-byte prefix) is only used by the length sweep.
@@ -103,6 +103,46 @@ func build(op *spec.Op, path string, c, k int) []byte {
 		return d
 	case "function-ff": // beyond every function code the protocol defines
 		d[1] = 0xff
+		return d
+	case "no-value-and-malformed":
+		// the reply's "no value" sentinel (profile id 0, card number 0, event index 0) together with a
+		// malformed field elsewhere in the record: malformed is malformed - the call fails, it does not
+		// report "nothing there"
+		var sentinel string
+		switch op.Name {
+		case "GetTimeProfile":
+			sentinel = "ProfileID"
+		case "GetCardByID", "GetCardByIndex":
+			sentinel = "CardNumber"
+		case "GetEvent":
+			sentinel = "Index"
+		default:
+			return nil
+		}
+		done := false
+		for _, f := range op.Reply {
+			if f.Name == sentinel {
+				for k := 0; k < f.Enc.Width(); k++ {
+					d[f.Off+k] = 0
+				}
+			}
+		}
+		for _, f := range op.Reply {
+			if f.Name == sentinel || done {
+				continue
+			}
+			switch f.Enc {
+			case spec.Date, spec.DateTime, spec.HHmm:
+				d[f.Off] = 0xfa
+				done = true
+			case spec.Bool:
+				d[f.Off] = 0x02
+				done = true
+			}
+		}
+		if !done {
+			return nil
+		}
 		return d
 	case "event-from-S": // a well-formed status / event datagram of the addressed controller (function code 0x20)
 		if op.Code == 0x20 {
